@@ -37,6 +37,10 @@ Definition s_step (s : smap N) (o : fm_op) : smap N * fm_out :=
   | FContains k => (s, OBool (match s_val s k with Some _ => true | None => false end))
   | FErase k => (s_del s k, OUnit)
   | FClear => (s_empty, OUnit)
+  | FAtC k => (s, match s_val s k with Some v => OVal v | None => OThrow end)
+  | FAtIndexC i => (s, match nth_error (s_order s) (N.to_nat i) with
+                       | Some k => match s_val s k with Some v => OItem k v | None => OThrow end
+                       | None => OThrow end)
   end.
 
 Definition abs (m : fm) : smap N := {| s_order := map fst m; s_val := fm_lookup m |}.
@@ -196,7 +200,20 @@ Proof.
   - auto.
   - split; [reflexivity|]. split; [apply erase_keys | apply lookup_erase].
   - auto.
+  - auto.
+  - split; [|auto]. rewrite nth_error_map.
+    destruct (nth_error m (N.to_nat i)) as [[k v]|] eqn:E; simpl; [|reflexivity].
+    apply nth_error_In in E. now rewrite (in_nodup_lookup m k v ND E).
 Qed.
+
+(* every operation through a const member leaves the map as it was *)
+Lemma fm_const_unchanged m o : fm_is_const o = true -> fst (fm_step m o) = m.
+Proof. destruct o; simpl; intro H; try discriminate; reflexivity. Qed.
+
+(* ... and the const overloads of at / at_index answer what the non-const ones answer *)
+Lemma fm_const_same_answer m k i :
+  fm_step m (FAtC k) = fm_step m (FAt k) /\ fm_step m (FAtIndexC i) = fm_step m (FAtIndex i).
+Proof. split; reflexivity. Qed.
 
 (* iteration (begin..end) is exactly the abstract map read in key order *)
 Lemma fm_iteration m :
